@@ -1,2 +1,9 @@
 #!/bin/sh
-exit 0
+# Build the verifier offline from files on disk.
+set -e
+cd "$(dirname "$0")/tool"
+export GOFLAGS=-mod=mod GOPROXY=off
+cp /repo/go.sum . 2>/dev/null || true
+mkdir -p ../bin
+go build -o ../bin/gvc .
+echo "gvc built"
